@@ -9,7 +9,7 @@ from . import common_derive as cd, c17, c18
 EXHAUSTIVE = False  # contains a finite corpus of programs (witnesses / declarations)
 LEVEL = "translation_validation"
 EXPLANATION = (
-    "Translation validation of #[derive(TypeInfo)] over a corpus of declarations (engines/fixtures: 33 types covering named / unnamed / unit "
+    "Translation validation of #[derive(TypeInfo)] over a corpus of declarations (engines/fixtures: 40 types covering named / unnamed / unit "
     "shapes, generics, skip_type_params, codec skip / compact / index, explicit discriminants, rename, replace_segment with repeated and "
     "interfering pairs, lifetimes in every position, doc capture never / default / always, spacing, macro-generated types): the corpus is "
     "type-checked against the tree with the driver (rustc expands the derive; nothing is executed), the shape term of each *derived* "
@@ -322,7 +322,7 @@ def corpus(chk, tier):
         programs += 1
     else:
         chk.fail("R9.T", "decl:verif_fixtures::FromMacro", None, "macro-generated declaration missing", None)
-    chk.floor("R9.T", n, 30, "declarations in the corpus")
+    chk.floor("R9.T", n, 40, "declarations in the corpus")
     chk.analysed["programs"] = programs
     chk.analysed["disagreements"] = disagreements
     chk.extra_cov = {"programs": programs, "disagreements_checked": programs, "samples": samples}
